@@ -5,6 +5,7 @@
 //!   codec run                 case lines on stdin -> one observation line per case, from the REAL serde/bincode code
 //!
 //! case : `<kind> <root> <format> <payload> <registry>`   (see lean/Driver/Codec.lean)
+//!        `typegen AppC (enum Choice 3 0)`: must the type generator refuse this app? out: `typegen-refused|accepted`
 //! out  : `wrote <hex> <value|unreadable>` | `ser-error` | `accepted <value> <hex> <0|1>` | `rejected`
 //!        | `unbuildable <why>` | `unstable <value>` | `bad-case <why>` | `panic <class>`
 //!
@@ -176,6 +177,8 @@ pub mod app_a {
         fn update(&self, event: Event, model: &mut Model, _caps: &()) -> Command<Effect, Event> {
             model.seen += 1;
             let cmd = match &event {
+                // nothing to do, nothing to show: the effect list of this call is empty
+                Event::Nothing | Event::GotPlatform(_) => Command::done(),
                 Event::Http(req) => Command::request_from_shell(req.clone()).then_send(Event::GotHttp),
                 Event::Kv(op) => Command::request_from_shell(op.clone()).then_send(Event::GotKv),
                 Event::Time(req) => Command::request_from_shell(req.clone()).then_send(Event::GotTime),
@@ -282,7 +285,8 @@ pub mod app_b {
         fn update(&self, event: EventB, model: &mut Model, caps: &Capabilities) -> Command<EffectB, EventB> {
             model.count += 1;
             match event {
-                EventB::Ping => caps.render.render(),
+                // nothing to do, nothing to show: the effect list of this call is empty
+                EventB::Ping => {}
                 EventB::Fetch(url) => match url::Url::parse(&url) {
                     Ok(_) => caps.http.get(url).header("x-verif", "1").send(EventB::GotHttp),
                     Err(_) => caps.render.render(),
@@ -308,8 +312,8 @@ pub mod app_b {
                     caps.render.render();
                 }
                 EventB::GotPlatform(p) => {
+                    // … and so is the one of this response
                     model.text = p.0;
-                    caps.render.render();
                 }
             }
             Command::done()
@@ -326,27 +330,132 @@ pub mod app_b {
     }
 }
 
+/// app C: its types hold a multi-variant enum (`Choice`) that is nested in another type and NOT registered on its
+/// own. serde-reflection sees only the first variant of such an enum, and `TypeGen::ensure_registry` must refuse to
+/// hand out a registry (`Tracer::registry()` → `MissingVariants`). If it does not refuse, the registry is used like
+/// any other: the core emits `Second` / `Third`, which that schema does not have.
+#[derive(Serialize, Deserialize, Debug, Clone, PartialEq)]
+pub enum Choice {
+    First,
+    Second(u8),
+    Third { a: u16, b: String },
+}
+pub const CHOICE_VARIANTS: usize = 3;
+
+#[derive(Serialize, Deserialize, Debug, Clone, PartialEq)]
+pub struct Holder {
+    pub choice: Choice,
+    pub n: u8,
+}
+
+#[derive(Serialize, Deserialize, Debug, Clone, PartialEq)]
+pub enum EventC {
+    Set(u8),
+    Pick(Holder),
+    Reset,
+}
+
+#[derive(Serialize, Deserialize, Debug, Clone, PartialEq)]
+pub struct ViewModelC {
+    pub current: Holder,
+    pub past: Vec<Choice>,
+}
+
+pub fn choice_of(n: u8) -> Choice {
+    match n % 3 {
+        0 => Choice::First,
+        1 => Choice::Second(n),
+        _ => Choice::Third { a: n as u16 * 257, b: format!("c{n}") },
+    }
+}
+
+pub mod app_c {
+    use super::*;
+
+    pub struct Model {
+        pub current: Holder,
+        pub past: Vec<Choice>,
+    }
+
+    impl Default for Model {
+        fn default() -> Self {
+            Model { current: Holder { choice: Choice::First, n: 0 }, past: vec![] }
+        }
+    }
+
+    #[effect(typegen)]
+    pub enum Effect {
+        Render(RenderOperation),
+    }
+
+    #[derive(Default)]
+    pub struct App;
+
+    impl crux_core::App for App {
+        type Event = EventC;
+        type Model = Model;
+        type ViewModel = ViewModelC;
+        type Capabilities = ();
+        type Effect = Effect;
+
+        fn update(&self, event: EventC, model: &mut Model, _caps: &()) -> Command<Effect, EventC> {
+            match event {
+                EventC::Set(n) => {
+                    model.past.push(model.current.choice.clone());
+                    model.current = Holder { choice: choice_of(n), n };
+                    render()
+                }
+                EventC::Pick(h) => {
+                    model.past.push(model.current.choice.clone());
+                    model.current = h;
+                    render()
+                }
+                EventC::Reset => {
+                    *model = Model::default();
+                    Command::done()
+                }
+            }
+        }
+
+        fn view(&self, model: &Model) -> ViewModelC {
+            ViewModelC { current: model.current.clone(), past: model.past.clone() }
+        }
+    }
+}
+
 // ================================================================================================ registry
 
-/// `register_app` as a build.rs calls it, then what `TypeGen::ensure_registry` does (typegen.rs:558-577)
-fn trace_app<A>(nested_enums: impl FnOnce(&mut TypeGen)) -> Registry
+/// `register_app` as a build.rs calls it, then the registry exactly as the generators get it: through the real
+/// (private) `TypeGen::ensure_registry` (typegen.rs:558-577), which is where an incompletely traced enum is refused.
+/// `TypeGen::java` is the lightest public method that runs it (`swift` installs more files, `typescript` spawns
+/// pnpm); it writes the generated Java sources into a scratch directory that is removed again. Whatever `java`
+/// does after `ensure_registry` is irrelevant here: the state tells whether a registry was produced.
+fn trace_app<A>(nested_enums: impl FnOnce(&mut TypeGen)) -> Result<Registry, String>
 where
     A: crux_core::App,
     A::Effect: crux_core::typegen::Export,
     A::Event: Deserialize<'static>,
     A::ViewModel: Deserialize<'static> + 'static,
 {
+    static SCRATCH: std::sync::atomic::AtomicUsize = std::sync::atomic::AtomicUsize::new(0);
     let mut gen = TypeGen::new();
     // enums nested in the app's types need their own `register_type` (typegen.rs:248-264), as in any build.rs
     nested_enums(&mut gen);
-    gen.register_app::<A>().expect("register_app");
+    gen.register_app::<A>().map_err(|e| format!("register_app: {e}"))?;
+    let dir = std::env::temp_dir().join(format!(
+        "crux-verif-codec-{}-{}",
+        std::process::id(),
+        SCRATCH.fetch_add(1, std::sync::atomic::Ordering::SeqCst)
+    ));
+    let res = gen.java("verif.codec", &dir);
+    let _ = std::fs::remove_dir_all(&dir);
     let state = std::mem::replace(
         &mut gen.state,
         State::Registering(Tracer::new(TracerConfig::default()), Samples::new()),
     );
     match state {
-        State::Registering(tracer, _) => tracer.registry().expect("registry"),
-        State::Generating(r) => r,
+        State::Generating(r) => Ok(r),
+        State::Registering(..) => Err(format!("ensure_registry: {res:?}")),
     }
 }
 
@@ -481,7 +590,12 @@ struct Root {
 struct World {
     regs: Vec<Registry>,
     roots: Vec<Root>,
+    /// why typegen refused app C (the expected outcome); `None` when it handed out a registry (then `regs[2]`)
+    app_c_refused: Option<String>,
 }
+
+/// containers of app C that are roots when typegen does hand out a registry for it
+const APP_C_ROOTS: &[&str] = &["EventC", "ViewModelC", "Holder", "Choice"];
 
 fn name(n: &str) -> Format {
     Format::TypeName(n.to_string())
@@ -526,6 +640,11 @@ macro_rules! with_root_type {
             "RequestB" => $f::<Request<app_b::EffectBFfi>>($($arg),*),
             "RequestsB" => $f::<Vec<Request<app_b::EffectBFfi>>>($($arg),*),
             "EventB" => $f::<EventB>($($arg),*),
+            "EventC" => $f::<EventC>($($arg),*),
+            "ViewModelC" => $f::<ViewModelC>($($arg),*),
+            "Holder" => $f::<Holder>($($arg),*),
+            "Choice" => $f::<Choice>($($arg),*),
+            "RequestsC" => $f::<Vec<Request<app_c::EffectFfi>>>($($arg),*),
             "ViewModelB" => $f::<ViewModelB>($($arg),*),
             other => panic!("no Rust type for root {other}"),
         }
@@ -546,11 +665,27 @@ fn world() -> World {
         trace_app::<app_a::App>(|gen| {
             gen.register_type::<Inner>().expect("Inner");
             gen.register_type::<Tree2>().expect("Tree2");
-        }),
-        trace_app::<app_b::App>(|_| {}),
+        })
+        .expect("app A"),
+        trace_app::<app_b::App>(|_| {}).expect("app B"),
     ];
+    let mut regs = regs;
     let mut roots = special_roots();
+    let app_c_refused = match trace_app::<app_c::App>(|_| {}) {
+        Ok(r) => {
+            regs.push(r);
+            roots.push(Root { key: "RequestsC", app: 2, format: Format::Seq(Box::new(name("Request"))) });
+            None
+        }
+        Err(e) => Some(e),
+    };
     for (app, reg) in regs.iter().enumerate() {
+        if app == 2 {
+            for n in APP_C_ROOTS.iter().filter(|n| reg.contains_key(**n)) {
+                roots.push(Root { key: n, app, format: name(n) });
+            }
+            continue;
+        }
         for n in reg.keys() {
             // app B shares the protocol containers with app A; its own ones are EffectB, Request, EventB, ViewModelB
             if app == 1 && regs[0].contains_key(n) && n != "Request" {
@@ -570,7 +705,7 @@ fn world() -> World {
         with_root_type!(r.key, probe, ());
     }
     roots.sort_by_key(|r| (r.app, r.key));
-    World { regs, roots }
+    World { regs, roots, app_c_refused }
 }
 
 // ================================================================================================ run: the real code
@@ -1188,6 +1323,40 @@ impl Arb for ViewModelB {
     }
 }
 
+impl Arb for Choice {
+    fn arb(g: &mut G) -> Self {
+        match g.variant("Choice", 3) {
+            0 => Choice::First,
+            1 => Choice::Second(Arb::arb(g)),
+            _ => Choice::Third { a: Arb::arb(g), b: g.string() },
+        }
+    }
+}
+impl Arb for Holder {
+    fn arb(g: &mut G) -> Self {
+        Holder { choice: Arb::arb(g), n: Arb::arb(g) }
+    }
+}
+impl Arb for EventC {
+    fn arb(g: &mut G) -> Self {
+        match g.variant("EventC", 3) {
+            0 => EventC::Set(Arb::arb(g)),
+            1 => EventC::Pick(Arb::arb(g)),
+            _ => EventC::Reset,
+        }
+    }
+}
+impl Arb for ViewModelC {
+    fn arb(g: &mut G) -> Self {
+        ViewModelC { current: Arb::arb(g), past: g.vec() }
+    }
+}
+impl Arb for app_c::EffectFfi {
+    fn arb(_: &mut G) -> Self {
+        app_c::EffectFfi::Render(RenderOperation)
+    }
+}
+
 /// `None`: `Serialize` refuses the value (a `#[serde(skip)]` variant) — it cannot cross the bridge at all
 fn gen_val<T: Arb + Serialize>(g: &mut G) -> Option<Uv> {
     g.depth = 0;
@@ -1494,6 +1663,24 @@ fn history_b(w: &World, g: &mut G, steps: usize, out: &mut Vec<String>) {
     }
 }
 
+/// app C, only when typegen handed out a registry for it: events encoded from that schema, every byte string returned
+fn history_c(w: &World, g: &mut G, steps: usize, out: &mut Vec<String>) {
+    let bridge: Bridge<app_c::App> = Bridge::new(Core::new());
+    let (reqs, view) = (root(w, "RequestsC"), root(w, "ViewModelC"));
+    for _ in 0..steps {
+        let ev = walk(&w.regs[reqs.app], &name("EventC"), g).1;
+        let bytes = bridge.process_event(&ev).expect("process_event");
+        out.push(case_line(w, reqs, "strict", &to_hex(&bytes)));
+        out.push(case_line(w, view, "strict", &to_hex(&bridge.view().expect("view"))));
+    }
+}
+
+/// `typegen <app> (enum <name> <declared variants> <registered on its own: 0|1>)`: does the type generator hand out
+/// a schema for this app?   out: `typegen-refused` | `typegen-accepted`
+fn typegen_line() -> String {
+    format!("typegen AppC (enum Choice {CHOICE_VARIANTS} 0)")
+}
+
 // ================================================================================================ main
 
 /// runs one section of the generator; a panic inside it (the real code refusing what the schema says, a format naming
@@ -1550,6 +1737,9 @@ fn gen_cases(w: &World, seed: u64, n: usize) -> Vec<String> {
         let g = &mut g;
         section(&mut out, |out| history_a(w, g, k, out));
         section(&mut out, |out| history_b(w, g, k, out));
+        if w.app_c_refused.is_none() {
+            section(&mut out, |out| history_c(w, g, k, out));
+        }
         left -= k;
     }
     out
@@ -1558,7 +1748,7 @@ fn gen_cases(w: &World, seed: u64, n: usize) -> Vec<String> {
 /// hand-picked: one value per variant of `HttpError` (the `#[serde(skip)]` numbering defect) alone and nested, the
 /// empty / extreme values of a few roots
 fn gen_fixed(w: &World) -> Vec<String> {
-    let mut out = vec![];
+    let mut out = vec![typegen_line()];
     let s = |x: &str| x.to_string();
     let vals: Vec<(&str, Uv)> = vec![
         ("HttpError", to_uv(&HttpError::Url(s("x"))).unwrap()),
@@ -1667,6 +1857,17 @@ fn main() {
                 let line = line.unwrap();
                 if line.starts_with("trace-failed") {
                     writeln!(o, "trace-failed").unwrap();
+                    continue;
+                }
+                if line.starts_with("typegen ") {
+                    let r = if line != typegen_line() {
+                        "bad-case typegen"
+                    } else if w.app_c_refused.is_some() {
+                        "typegen-refused"
+                    } else {
+                        "typegen-accepted"
+                    };
+                    writeln!(o, "{r}").unwrap();
                     continue;
                 }
                 let fresh = parse_line(&line).and_then(|items| match (items.get(1), items.get(4)) {
